@@ -189,6 +189,55 @@ def set_obligation(n):
                 bound=f"{n} open groups, both scopes: the new value is stored through the variable's getter; the overwritten value goes to update_save_stack with the same scope iff a group is open, else it is recycled")
 
 
+# ---------------------------------------------------------------- \global bookkeeping (prefix::Component)
+CRP = ["texlang-stdlib", "texcraft-stdext"]
+
+
+def comp(st):
+    c = st.roots[0]  # the component *of this path* (paths are deep copies)
+    while isinstance(c, Ref):
+        c = c.cell.v
+    return c
+
+
+def post_set_scope(a, ret, st):
+    c = comp(st)  # state after the call (the cell was updated in place)
+    scope_after, gdv_after = c.fields[0].tag, c.fields[1]
+    want = tm.ite(tm.eq(a["__gdv0__"], I(0)), a["scope"].tag, I(0))
+    return tm.and_(tm.eq(scope_after, want), tm.eq(gdv_after, a["__gdv0__"]))
+
+
+def post_read_and_reset(a, ret, st):
+    c = comp(st)
+    scope_after, gdv_after = c.fields[0].tag, c.fields[1]
+    gdv, scope0 = a["__gdv0__"], a["__scope0__"]
+    want_ret = tm.ite(tm.lt(gdv, I(0)), I(0), tm.ite(tm.gt(gdv, I(0)), I(1), scope0))
+    want_scope = tm.ite(tm.eq(gdv, I(0)), I(0), scope0)
+    return tm.and_(tm.eq(ret.tag, want_ret), tm.eq(scope_after, want_scope), tm.eq(gdv_after, gdv))
+
+
+def build_component(extra):
+    def f(sym, bind):
+        def var(name, lo, hi):
+            if sym.consts is not None:
+                return I(sym.consts.get(name, 0))
+            v = tm.V(name)
+            sym.assumes.append(tm.and_(tm.le(I(lo), v), tm.le(v, I(hi))))
+            sym.vars[name] = "i32"
+            return v
+        scope0 = var("scope0", 0, 1)
+        gdv = var("gdv", -(1 << 31), (1 << 31) - 1)
+        cell = Cell(Agg([Enum(scope0, {}, "Scope"), gdv, Opaque("tags")]))
+        args = {"self": Ref(cell), "__gdv0__": gdv, "__scope0__": scope0}
+        vals = [Ref(cell)]
+        if extra:
+            s = var("scope_arg", 0, 1)
+            args["scope"] = Enum(s, {}, "Scope")
+            vals.append(args["scope"])
+        return args, vals
+    return f
+
+
 PROP = {
     "title": "Group scoping: local assignments undone, global ones survive (mechanism level)",
     "level_text": (
@@ -203,7 +252,7 @@ PROP = {
     "outside": [
         "TeX-level histories through VM::run (\\\\count, \\\\def, \\\\let, \\\\catcode, fonts, \\\\global/\\\\globaldefs prefixes): NOT decided",
         "SaveStackMap::restore (iterates a std HashMap and calls getters through function pointers) and SaveStackMap::save's keep-the-first-value rule (std HashMap::entry); VM::begin_group / VM::end_group (three calls each; end_group builds error values)",
-        "prefix::Component (\\\\global consumes exactly one assignment): token-level, VM-bound",
+        "which tokens may follow \\\\global and the dispatch of prefixed commands (prefix.rs process_prefixes): token-level, VM-bound; only the flag's state machine (set_scope / read_and_reset_global) is decided",
         "more than 3 open groups for the protocol obligations, histories beyond the C20 bounds",
     ],
     "assumptions": [],
@@ -220,5 +269,15 @@ PROP = {
                  bound="closes a group in both maps; Ok iff both succeed; an error of the first is returned before the second is touched"),
             update_obligation(1), update_obligation(2), update_obligation(3),
             set_obligation(0), set_obligation(2),
+            dict(engine="B", name="c01_prefix_set_scope", crates=CRP, fn=("texlang-stdlib", "set_scope", "Component", None),
+                 args=[("self", "&mut Component"), ("scope", "Scope")], build_args=build_component(True), post=post_set_scope, post_state=True,
+                 witnesses=[("\\global while \\globaldefs is negative", lambda a: tm.and_(tm.lt(a["__gdv0__"], I(0)), tm.eq(a["scope"].tag, I(1))))],
+                 funcs=["texlang_stdlib::prefix::Component::set_scope (private; MIR)"],
+                 bound="every \\globaldefs value (i32), both requested scopes, both previous flag values: the flag is set only while \\globaldefs = 0"),
+            dict(engine="B", name="c01_prefix_read_and_reset_global", crates=CRP, fn=("texlang-stdlib", "read_and_reset_global", "Component", None),
+                 args=[("self", "&mut Component")], build_args=build_component(False), post=post_read_and_reset, post_state=True,
+                 witnesses=[("flag set, \\globaldefs = 0", lambda a: tm.and_(tm.eq(a["__gdv0__"], I(0)), tm.eq(a["__scope0__"], I(1))))],
+                 funcs=["texlang_stdlib::prefix::Component::read_and_reset_global (private; MIR)"],
+                 bound="every \\globaldefs value, both flag values: returns Global for \\globaldefs > 0, Local for < 0, else the flag, which is cleared by the read - so \\global changes the scope of exactly one assignment"),
         ]),
 }
